@@ -286,6 +286,10 @@ unsigned int conf_parse_volume(const char *value, int *success)
         total += partial << 20;
         partial = 0;
         break;
+    default:
+        if (success)
+            *success = 0;
+        return total + partial;
     }
     if (success)
         *success = (*pos == '\0');
